@@ -262,6 +262,103 @@ macro_rules! run_srt {
     }};
 }
 
+// ------------------------------------------------------------------ views and projections (C11)
+macro_rules! run_cam {
+    ($cx:ident, $c:ident, $S:ident, $tol:expr, $V3:ident, $V4:ident, $Q:ident, $M3:ident, $M4:ident, $A3:ident, [$($M3X:ident),*]) => {{
+        let kind = $c["kind"].as_str().unwrap();
+        if kind == "view" {
+            let eye: Vec<f64> = $c["eye"].as_array().unwrap().iter().map(|x| x.as_i64().unwrap() as f64).collect();
+            let dirv = ringv(&$c["dir"]);
+            let upv = ringv(&$c["up"]);
+            let lin = ringv(&$c["lin"]);
+            let tr = ringv(&$c["t"]);
+            let e = $V3::new(eye[0] as $S, eye[1] as $S, eye[2] as $S);
+            let d = $V3::new(dirv[0] as $S, dirv[1] as $S, dirv[2] as $S).normalize();
+            let u = $V3::new(upv[0] as $S, upv[1] as $S, upv[2] as $S);
+            let center = e + d * 3.0;
+            let rh = $c["hand"] == "rh";
+            let tol = $tol * 2.0 * (1.0 + eye.iter().fold(0.0f64, |a, b| a.max(b.abs())));
+            let want_rest = [0.0, 0.0, 0.0, tr[0], tr[1], tr[2], 1.0];
+            let ms = [("look_to", if rh { $M4::look_to_rh(e, d, u) } else { $M4::look_to_lh(e, d, u) }),
+                      ("look_at", if rh { $M4::look_at_rh(e, center, u) } else { $M4::look_at_lh(e, center, u) })];
+            for (w, m) in ms {
+                let v = f64s!(m.to_cols_array());
+                near($cx, $c, &format!("{w} rotation part"), stringify!($M4), &lin, &m3_of4(&v), tol);
+                near($cx, $c, &format!("{w} translation / last row"), stringify!($M4), &want_rest, &rest_of4(&v), tol);
+                // the eye goes to the origin; the view direction to -Z (rh) / +Z (lh)
+                near($cx, $c, &format!("{w}: eye -> origin"), stringify!($M4), &[0.0, 0.0, 0.0], &f64s!(m.transform_point3(e).to_array()), tol);
+                near($cx, $c, &format!("{w}: dir -> -+Z"), stringify!($M4), &[0.0, 0.0, if rh { -1.0 } else { 1.0 }], &f64s!(m.transform_vector3(d).to_array()), tol);
+            }
+            let aa = [("look_to", if rh { $A3::look_to_rh(e, d, u) } else { $A3::look_to_lh(e, d, u) }),
+                      ("look_at", if rh { $A3::look_at_rh(e, center, u) } else { $A3::look_at_lh(e, center, u) })];
+            for (w, a) in aa {
+                let v = f64s!(a.to_cols_array());
+                near($cx, $c, &format!("{w} rotation part"), stringify!($A3), &lin, &v[..9], tol);
+                near($cx, $c, &format!("{w} translation"), stringify!($A3), &tr, &v[9..], tol);
+                near($cx, $c, &format!("{w}: eye -> origin"), stringify!($A3), &[0.0, 0.0, 0.0], &f64s!(a.transform_point3(e).to_array()), tol);
+            }
+            let qs = [("look_to", if rh { $Q::look_to_rh(d, u) } else { $Q::look_to_lh(d, u) }),
+                      ("look_at", if rh { $Q::look_at_rh(e, center, u) } else { $Q::look_at_lh(e, center, u) })];
+            for (w, q) in qs {
+                near($cx, $c, &format!("{w} rotation"), stringify!($Q), &lin, &f64s!($M3::from_quat(q).to_cols_array()), tol);
+                near($cx, $c, &format!("{w} unit"), stringify!($Q), &[1.0], &[q.length() as f64], tol);
+            }
+            let m3 = if rh { $M3::look_to_rh(d, u) } else { $M3::look_to_lh(d, u) };
+            near($cx, $c, "look_to", stringify!($M3), &lin, &f64s!(m3.to_cols_array()), tol);
+            let m3b = if rh { $M3::look_at_rh(e, center, u) } else { $M3::look_at_lh(e, center, u) };
+            near($cx, $c, "look_at", stringify!($M3), &lin, &f64s!(m3b.to_cols_array()), tol);
+            $( let mx = if rh { $M3X::look_to_rh(d, u) } else { $M3X::look_to_lh(d, u) };
+               near($cx, $c, "look_to", stringify!($M3X), &lin, &f64s!(mx.to_cols_array()), tol); )*
+        } else {
+            let name = $c["name"].as_str().unwrap();
+            let n = ring(&$c["near"]) as $S;
+            let f = ring(&$c["far"]) as $S;
+            let m: $M4 = if kind == "persp" {
+                let pa = $c["params"].as_array().unwrap();
+                let t = (2.0 as $S).powi(pa[0].as_i64().unwrap() as i32);
+                let fov = 2.0 * t.atan();
+                let a = (2.0 as $S).powi(pa[1].as_i64().unwrap() as i32);
+                match name {
+                    "perspective_rh_gl" => $M4::perspective_rh_gl(fov, a, n, f),
+                    "perspective_lh" => $M4::perspective_lh(fov, a, n, f),
+                    "perspective_rh" => $M4::perspective_rh(fov, a, n, f),
+                    "perspective_infinite_lh" => $M4::perspective_infinite_lh(fov, a, n),
+                    "perspective_infinite_reverse_lh" => $M4::perspective_infinite_reverse_lh(fov, a, n),
+                    "perspective_infinite_rh" => $M4::perspective_infinite_rh(fov, a, n),
+                    "perspective_infinite_reverse_rh" => $M4::perspective_infinite_reverse_rh(fov, a, n),
+                    _ => panic!("projection {name}"),
+                }
+            } else {
+                let b = ringv(&$c["params"]);
+                let (l, r, bo, tp) = (b[0] as $S, b[1] as $S, b[2] as $S, b[3] as $S);
+                match name {
+                    "orthographic_rh_gl" => $M4::orthographic_rh_gl(l, r, bo, tp, n, f),
+                    "orthographic_lh" => $M4::orthographic_lh(l, r, bo, tp, n, f),
+                    "orthographic_rh" => $M4::orthographic_rh(l, r, bo, tp, n, f),
+                    _ => panic!("projection {name}"),
+                }
+            };
+            for pr in $c["probes"].as_array().unwrap() {
+                let p = ringv(&pr["p"]);
+                let clip = ringv(&pr["clip"]);
+                let mag = clip.iter().fold(1.0f64, |a, b| a.max(b.abs()));
+                let tol = $tol * 4.0 * mag;
+                let pv = $V3::new(p[0] as $S, p[1] as $S, p[2] as $S);
+                let got = m * $V4::new(p[0] as $S, p[1] as $S, p[2] as $S, 1.0);
+                near($cx, $c, &format!("{name}: M * (p, 1)"), stringify!($M4), &clip, &f64s!(got.to_array()), tol);
+                if clip[3].abs() > 1e-9 {
+                    let ndc = [clip[0] / clip[3], clip[1] / clip[3], clip[2] / clip[3]];
+                    let nt = $tol * 8.0 * ndc.iter().fold(1.0f64, |a, b| a.max(b.abs()));
+                    near($cx, $c, &format!("{name}: project_point3"), stringify!($M4), &ndc, &f64s!(m.project_point3(pv).to_array()), nt);
+                }
+                if kind == "ortho" {
+                    near($cx, $c, &format!("{name}: transform_point3"), stringify!($M4), &clip[..3], &f64s!(m.transform_point3(pv).to_array()), tol);
+                }
+            }
+        }
+    }};
+}
+
 // ------------------------------------------------------------------ conversion chains (C05)
 #[derive(Clone, Copy, Debug)]
 enum Rep { Q(Quat), M3(Mat3), M3A(Mat3A), M4(Mat4), A3(Affine3A), DQ(DQuat), DM3(DMat3), DM4(DMat4), DA3(DAffine3) }
@@ -399,6 +496,21 @@ fn main() {
             cx.rep.count_op(&format!("chain:{}:{}", c["start"].as_str().unwrap(), c["branch"].as_str().unwrap()), 1);
             if cx.rep.samples.len() < 3 && n % 9973 == 1 { cx.rep.samples.push(c.clone()); }
             run_chain(&mut cx, &c);
+            return;
+        }
+        if c["fam"] == "cam" {
+            n += 1;
+            cx.rep.nontrivial += 1;
+            let key = if c["kind"] == "view" { format!("view:{}", c["hand"].as_str().unwrap()) } else { c["name"].as_str().unwrap().to_string() };
+            cx.rep.count_op(&key, 1);
+            if cx.rep.samples.len() < 3 && n % 211 == 1 { let mut sm = c.clone(); if let Some(p) = sm.get_mut("probes") { if let Some(a) = p.as_array_mut() { a.truncate(2); } } cx.rep.samples.push(sm); }
+            let r = catch(|| {
+                let c = &c;
+                let cx = &mut cx;
+                run_cam!(cx, c, f32, 1e-5, Vec3, Vec4, Quat, Mat3, Mat4, Affine3A, [Mat3A]);
+                run_cam!(cx, c, f64, 1e-12, DVec3, DVec4, DQuat, DMat3, DMat4, DAffine3, []);
+            });
+            if let Err(p) = r { cx.rep.mismatch(json!({"prop": cx.prop, "ty": "any", "op": "cam", "what": "panic", "panic": p, "case": c})); }
             return;
         }
         if c["fam"] == "srt" {
